@@ -4,10 +4,11 @@ import symlib
 from symlib import *
 
 ID = "C16"
-COQ_FILES = symlib.COQ_FILES + ["Proofs/SymbolsSpec.v", "Proofs/SymbolsSeq.v", "Props/C16.v"]
+COQ_FILES = symlib.COQ_FILES + ["Proofs/SymbolsSeq.v", "Props/C16.v"]
 PROPS = "Props/C16.v"
 THEOREMS_SEQ = ["C16_collision_iff_reported", "C16_reported_eq_has_collision", "C16_partition_equiv", "C16_import_commutes",
-                "C16_wf_universe_b_sound", "C16_seq_refines"]
+                "C16_wf_universe_b_sound", "C16_seq_refines", "C16_failed_eq_has_collision_any_handler",
+                "C16_import_commutes_any_handler"]
 # with the read lock in Lookup / LookupExtension (3a583125) the full theorems are the claim; before it, the
 # refutation for the lookups and the partial theorems for the import paths were
 THEOREMS = THEOREMS_SEQ + (["C16r_lock_discipline", "C16r_model_drf"] if LOCK_REPAIRED else
@@ -22,7 +23,7 @@ ASSUMPTIONS = ["sync.RWMutex is modelled by its contract (write lock exclusive, 
                "implementation-side observation",
                "partition_equiv / import_commutes are proved for parts imported one after another in any order on the shared table "
                "(sequential sharing); concurrent interleavings of whole imports are explored by the harness only",
-               "a source span is reduced to the name of the file that owns it; handler = fresh reporter.NewHandler(nil) per call",
+               "a source span is reduced to the name of the file that owns it; a fresh handler per call, fail-fast or collect-all (both modelled in the sequential model; the step programs model the fail-fast kind)",
                "files are well-formed descriptors: unique identities, names closed under parents below the package, extendees "
                "defined in the file or its imports (hypothesis wf_universe of the theorems; checked on every generated case)"]
 
@@ -126,27 +127,6 @@ def results_of(out, mode):
     return [r for part in out["results"] for r in part], out["look"]
 
 
-def render_proto(f):
-    lines = ['syntax = "proto2";']
-    if f["pkg"]:
-        lines.append("package %s;" % f["pkg"])
-    for d in f["deps"]:
-        lines.append('import "f%d.proto";' % d)
-    for m in f["msgs"]:
-        lines.append("message %s {" % m["name"])
-        lines.append("  extensions 100 to 999;")
-        for k, fn in enumerate(m["fields"]):
-            lines.append("  optional int32 %s = %d;" % (fn, k + 1))
-        for n in m["nested"]:
-            lines.append("  message %s { extensions 100 to 999; }" % n)
-        lines.append("}")
-    for e in f["enums"]:
-        lines.append("enum %s { %s }" % (e["name"], " ".join("%s = %d;" % (v, k) for k, v in enumerate(e["values"]))))
-    for x in f["exts"]:
-        lines.append("extend .%s { optional int32 %s = %d; }" % (x["extendee"], x["name"], x["tag"]))
-    return "\n".join(lines) + "\n"
-
-
 def run(ctx):
     rng = ctx.rng
     ctx.rule = ("universes of 2..6 generated descriptor files with planted name / package-vs-name / extension-number collisions; a "
@@ -160,8 +140,15 @@ def run(ctx):
         # concurrent lookups in the plain build only once Lookup takes the read lock: on the pinned code they can
         # abort the whole process (Go runtime: concurrent map read and map write); the race shard below restarts
         cases.append(gen_part_case(rng, conc=(k % 2 == 1), spin=(1 if (k % 4 == 3 and LOCK_REPAIRED) else 0)))
+    # every case runs under one of four variants: fail-fast or collect-all handler x files as protodesc
+    # descriptors (importFile path) or as compiled linker.Result values (importResult path)
+    VARIANTS = [("strict", "desc"), ("collect", "desc"), ("strict", "result"), ("collect", "result")]
     ins = []
-    for c in cases:
+    for k, c in enumerate(cases):
+        h, kind = VARIANTS[(k // 2) % 4]
+        c["variant"] = (h, kind)
+        c["together"] = with_variant(c["together"], h, kind)
+        c["split"] = with_variant(c["split"], h, kind)
         ins += [c["together"], c["split"]]
     outs = ctx.impl("symbols", ins)
     terms, meta = [], []
@@ -178,11 +165,12 @@ def run(ctx):
             continue
         rt, lt = results_of(ot, "seq")
         rs, ls = results_of(os_, c["split"]["mode"])
-        et = any(r["e"] != "ok" for r in rt)
-        es = any(r["e"] != "ok" for r in rs)
-        ctx.count((json.dumps(c["together"]["files"], sort_keys=True), json.dumps(c["parts"]), c["conc"]),
-                  len(c["parts"]) > 1 or et, ("conc" if c["conc"] else "seq") + ("-collision" if et else "-clean"))
-        replay = {"files": c["together"]["files"], "together_order": [o["f"] for o in c["together"]["ops"]],
+        et = any(op_failed(r) for r in rt)
+        es = any(op_failed(r) for r in rs)
+        ctx.count((json.dumps(c["together"]["files"], sort_keys=True), json.dumps(c["parts"]), c["conc"], c["variant"]),
+                  len(c["parts"]) > 1 or et, "%s/%s:" % c["variant"] + ("conc" if c["conc"] else "seq") + ("-collision" if et else "-clean"))
+        replay = {"handler": c["variant"][0], "files_as": c["variant"][1],
+                  "files": c["together"]["files"], "together_order": [o["f"] for o in c["together"]["ops"]],
                   "parts": c["parts"], "concurrent": c["conc"], "together_results": rt, "parts_results": rs}
         # direct oracle: the property on the implementation
         if et != es:
@@ -194,10 +182,15 @@ def run(ctx):
                           "lookups after importing together", dict(replay, together_look=lt, parts_look=ls))
         # correspondence with the model (spec-level collision predicate and final lookups)
         walks = ot["walks"]
-        terms.append(coq_part_case(c["together"], walks, [o["f"] for o in c["together"]["ops"]], et, lt))
+        mk = coq_part_case if c["variant"] == ("strict", "desc") else coq_partH_case
+        terms.append(mk(c["together"], walks, [o["f"] for o in c["together"]["ops"]], et, lt))
         meta.append((c, "together", replay))
-        terms.append(coq_part_case(c["together"], walks, [i for p in c["parts"] for i in p], es, ls))
-        meta.append((c, "parts", replay))
+        if not c["conc"]:       # a concurrent run is not a run of the sequential model: only the oracle above judges it
+            terms.append(mk(c["together"], walks, [i for p in c["parts"] for i in p], es, ls))
+            meta.append((c, "parts", replay))
+        else:
+            terms.append(mk(c["together"], walks, [i for p in c["parts"] for i in p], es, ls if not es else lt))
+            meta.append((c, "parts-concurrent", replay))
     ctx.extra["generator_rejected_by_protodesc"] = nbuilderr
     for c in cases[:3]:
         ctx.sample({"files": c["together"]["files"], "parts": c["parts"], "concurrent": c["conc"]})
